@@ -1,5 +1,5 @@
 (* C07 - operations are served only when the client's permissions allow them. *)
-From DV Require Import Model.Services Proofs.RulerProofs Proofs.RegexProofs Proofs.CheckerProofs Proofs.ServicesProofs.
+From DV Require Import Base.RegexEsc Proofs.RegexEscProofs Model.Services Proofs.RulerProofs Proofs.RegexProofs Proofs.CheckerProofs Proofs.ServicesProofs.
 Local Open Scope string_scope.
 
 (* (i) The permission decision.  check (the loop-shaped transcription of Check()) is true exactly
@@ -74,3 +74,15 @@ Example C07_example :
   check true t "other" "Wallet1/acc" "Sign" = false /\
   check true t "" "Wallet1/acc" "Sign" = false.
 Proof. vm_compute. repeat split; reflexivity. Qed.
+
+(* Permission paths may use the escape classes of Go's syntax (\d \D \w \W \s \S: Base/RegexEsc.v; the
+   correspondence hands them to the model by their letter).  The capital letter is the complement of the
+   small one for every character, with or without case folding - so a pattern must be taken as written:
+   folding the pattern's own letters (instead of matching case-insensitively) inverts these classes. *)
+Theorem C07_escape_class_capital_is_complement :
+  forall (ci : bool) (c : N),
+    cset_match ci (esc_cset 68) c = negb (cset_match ci (esc_cset 100) c) /\
+    cset_match ci (esc_cset 87) c = negb (cset_match ci (esc_cset 119) c) /\
+    cset_match ci (esc_cset 83) c = negb (cset_match ci (esc_cset 115) c).
+Proof. exact esc_capital_is_complement. Qed.
+Print Assumptions C07_escape_class_capital_is_complement.
